@@ -56,7 +56,8 @@ O0 == [op |-> "", path |-> <<>>, val |-> S(0), k |-> "", h |-> "", sv |-> ""]
 
 JsonScalar == [N |-> 60, T |-> 61, F |-> 62, X |-> 63, B |-> 64, E |-> 65]
 
-\* the i-th operation writes the scalar i, so later writes are distinguishable from earlier ones
+\* the operation at position i (0-based) writes the scalar i: later writes are distinguishable from
+\* earlier ones, and the first one writes a falsy value (0)
 MkVal(vk, i) == CASE vk = "S" -> S(i)
                   [] vk = "M" -> M("b" :> S(i))
                   [] vk = "L" -> L(<<S(i), S(i + 50)>>)                 \* two elements: index 0 is not index -1
@@ -94,7 +95,7 @@ Do(o) == \E a \in {Apply(C, st, o, ProbePaths)} :     \* bound once (TLC re-eval
          /\ hist' = Append(hist, [o |-> o, r |-> a.ret])
          /\ n' = n + 1
 
-Step == n < MaxOps /\ \E o \in Ops(n + 1) : Do(o)
+Step == n < MaxOps /\ \E o \in Ops(n) : Do(o)
 
 \* A complete history is printed for the driver: operations with the expected result of each call.
 \* (The driver ends every history with one more probe; its expected result is computed by the same
